@@ -13,6 +13,7 @@ fn field_attr(recvs: &[Recv], scope: &str, f: &Field, k: usize) -> String {
     match f.default {
         Def::None => {}
         Def::Trait => opts.push("default".into()),
+        Def::Func if hn.starts_with("own_") => opts.push(if k % 2 == 0 { format!("default = \"{hn}\"") } else { format!("default = {hn}") }),
         Def::Func => opts.push(if k % 2 == 0 { format!("default = \"fdef_{}_{}\"", scope, hn) } else { format!("default = fdef_{}_{}", scope, hn) }),
     }
     if f.skip {
@@ -53,7 +54,9 @@ fn field_helpers(recvs: &[Recv], scope: &str, f: &Field, k: usize, out: &mut Str
     let hn = f.rust.trim_start_matches("r#");
     let elem_ty = rust_ty(recvs, &f.ty);
     let full_ty = field_full_ty(recvs, f);
-    if f.default == Def::Func {
+    if f.default == Def::Func && hn.starts_with("own_") {
+        out.push_str(&format!("fn {hn}() -> {full_ty} {{ {} }}\n", field_sentinel_expr(recvs, f, Tag::FieldDefault, k)));
+    } else if f.default == Def::Func {
         out.push_str(&format!("fn fdef_{}_{}() -> {full_ty} {{ {} }}\n", scope, hn, field_sentinel_expr(recvs, f, Tag::FieldDefault, k)));
     }
     if let Ty::Sc(sc) = f.ty {
